@@ -70,6 +70,32 @@ CLAIMED['C14'] = dict(
     technique='CBMC contracts on mechanically C-extracted real functions, one obligation group per operator x type pair; SMT (cvc5) for * / % and floats',
     design='5/C14')
 
+CLAIMED['C12'] = dict(
+    level='proof',
+    text='All 9 scanners of lex.cpp, tokenizer_t::skipTo x2 / skipFrom / countSkippedLines loop / getRawString end-pattern loop / the scan-then-step fragments of getString, getRawString, getCharToken, getHeader, and the cursor handling of primitive::load/loadHex/loadBinary are C-extracted each run and proved memory-safe, terminating and '
+         'stopping at NUL or the documented delimiter for NUL-terminated buffers of every length (dfcc function contracts, loop contracts, callers checked against callee contracts); escape/unescape round trip, every-quote-escaped and spelling round trip for every byte string up to length 4 (quick) / 10 (thorough) - that part is bounded. Tests tokenize a few fixed strings.',
+    note='trusted: CBMC C front end + SAT, C extraction rules (references -> pointers, fp as a global), libc strlen/strncmp and parse* contracts assumed, ghost set-membership table (sets <= 64 chars). Not reached: getToken/peek dispatch, token classes, whole token-sequence round trip, operator longest match (C28).',
+    technique='CBMC code contracts (goto-instrument --dfcc, loop contracts, replace-call-with-contract) on mechanically C-extracted real functions; bounded unwinding for the escape codec',
+    design='5/C12')
+CLAIMED['C13'] = dict(
+    level='proof',
+    text='Conditional-inclusion state machine: processIf/Ifdef/Ifndef/Elif/Else/Endif, pushStatus/popStatus/swapReadingStatus, lineIsTrue, getIfdef, errorOn extracted verbatim (C++ front end, real ppStatus/tokenType constants); from EVERY state related by the representation relation R to the C view (parentActive, taken, active, seenElse) each directive re-establishes R with the view updated as C prescribes, '
+         'changes the depth by +1/0/0/-1, leaves saved parents untouched, does not evaluate conditions C never evaluates (ghost counter), and reports misplaced directives without corrupting the state. Loop-free, so this decides every directive sequence and nesting depth (inductive step). Tests run a few fixed files.',
+    note='trusted: CBMC C++ front end, opaque stubs for token-level helpers (symbolic condition value / success), std::vector window model (top 4 elements of the status stack modelled, unbounded below). Not reached: macro expansion, # and ##, token output, condition values (C14).',
+    technique='CBMC on mechanically extracted real functions: CHECK-encoded contracts + inductive step over a representation relation',
+    design='5/C13')
+for _c, _t in [('C17', 'launch-size expressions outer[k]/inner[k] = E and index maps `int it = init +- step*idx` emitted by `occa translate --launcher` for CUDA/HIP/OpenCL/Metal/DPC++ and the kept loops for Serial/OpenMP, for an enumerated family of loop headers (init x comparison x operand order x bound precedence class x update x @outer/@inner): '
+                      'ghost-index contract j < N <=> the j-th iterate satisfies the source comparison, and F(j) == init +- j*step, for all run-time operand values |.| <= 10^9 without overflow; run-time steps case-split 1..16'),
+               ('C19', 'the x[E] index emitted for @dim/@dimOrder accesses (arity 1-4, permutations, argument expressions of every precedence class): E == documented mixed-radix formula with every argument bound as a whole value (all 32-bit values, modulo 2^32), plus bijectivity onto [0, prod D) for small dimensions (bounded)'),
+               ('C18', 'the Serial loop nest emitted for @tile(T, ...) (tile sizes, steps, directions, comparisons, operand orders, check true/false): a ghost value is visited equally often (and at most once) by the original loop and by the tiled nest, run-time bounds in a stated box, loops fully unwound (bounded)'),
+               ('C15', 'the statement emitted for out[0] = EXPR over an enumerated family of expression shapes (operator pairs x parenthesisations, unary/binary, casts, ternaries, literal spellings incl. escapes): emitted == source for all 32-bit operand values where defined; string/char literals denote the same byte sequence; * / % shapes decided by token identity')]:
+    CLAIMED[_c] = dict(
+        level='translation_validation', engine='B-emitted-code-contracts',
+        text='Contracts on the C text emitted by the REAL translator, rebuilt from the current tree every run: ' + _t + '. The translator functions themselves are beyond the C++ front end, so the quantifier over programs is enumerated (quick: seeded sample + all shapes of known findings; thorough: full family), the quantifier over run-time inputs is discharged by CBMC.',
+        note='trusted: CBMC C front end + SAT, the small parser that cuts the emitted pieces (a piece that cannot be located is undecided, never a pass). Not proved: translator behaviour on programs outside the enumerated family; re-parse identity (C15).',
+        technique='translation validation with a deductive back end: CBMC contracts on emitted code per enumerated program',
+        design='5/' + _c)
+
 PENDING_REASON = 'check not built yet in this session (planned, see DESIGN.md section 5); not claimed until it runs'
 
 
